@@ -64,6 +64,17 @@ func loadFindings() *findingsFile {
 	return &ff
 }
 
+// sigsOf: the signature patterns of the listed findings of one property.
+func (ff *findingsFile) sigsOf(prop string) []string {
+	var out []string
+	for _, f := range ff.Findings {
+		if f.Property == prop {
+			out = append(out, f.SigRe)
+		}
+	}
+	return out
+}
+
 func (ff *findingsFile) match(prop, sig string) *finding {
 	for i := range ff.Findings {
 		f := &ff.Findings[i]
